@@ -47,7 +47,8 @@ class StepRec:
 
 
 def event_uid(e):
-    return e.data.get('uid') if e is not None else None
+    # whatever the step claims to have consumed: something that is not an Event has no uid and is nobody's event
+    return getattr(e, 'data', {}).get('uid') if e is not None else None
 
 
 class Sim:
@@ -92,6 +93,25 @@ class Sim:
             due = self.lastT + F(delay)
         self.expect_external(uid, name, due)
         return uid
+
+    def queue_pair(self, n1, d1, n2, d2, first_is_instance):
+        """one call with two events, one given as an Event instance and one by name: the keyword parameters belong to the
+        one given by name only"""
+        self.next_uid += 2
+        u1, u2 = self.next_uid - 1, self.next_uid
+
+        def inst(n, u, d):
+            return Event(n, uid=u) if d is None else Event(n, uid=u, delay=d)
+
+        def kw(u, d):
+            return dict(uid=u) if d is None else dict(uid=u, delay=d)
+        if first_is_instance:
+            self.it.queue(inst(n1, u1, d1), n2, **kw(u2, d2))
+        else:
+            self.it.queue(n1, inst(n2, u2, d2), **kw(u1, d1))
+        self.expect_external(u1, n1, self.lastT + F(d1 or 0))
+        self.expect_external(u2, n2, self.lastT + F(d2 or 0))
+        return u1, u2
 
     def expect_external(self, uid, name, due):
         """the model learns that an external event was put in this interpreter's queue"""
@@ -180,11 +200,12 @@ class Sim:
                 internal = isinstance(e, InternalEvent)
                 r.consumed_uid = uid
                 r.consumed_key = (uid, internal)
+                ename = getattr(e, 'name', e)
                 r.consumed_head = (h is not None and h[2] == uid and (hq is self.q.internal) == internal
-                                   and (uid is not None or h[3] == e.name))
+                                   and (uid is not None or h[3] == ename))
                 q = self.q.internal if internal else self.q.external
                 for item in list(q):
-                    if item[2] == uid and (uid is not None or item[3] == e.name):
+                    if item[2] == uid and (uid is not None or item[3] == ename):
                         q.remove(item)
                         break
                 if (uid, internal) in self.all_uids:
